@@ -206,6 +206,40 @@ func cmdVerify(args []string) int {
 			o.Res = solver.Solve(o.Script)
 		}(o)
 	}
+	wg.Wait()
+	// second chance: obligations that timed out / came back unknown are retried with more
+	// time, another seed and little concurrency (guards against load-induced flakiness)
+	var retry []*Obligation
+	for _, o := range first {
+		if o.Res.Answer != "unsat" && o.Res.Answer != "sat" {
+			retry = append(retry, o)
+		}
+	}
+	sort.Slice(retry, func(i, j int) bool { return retry[i].Name < retry[j].Name })
+	if len(retry) > 24 {
+		retry = retry[:24]
+	}
+	if len(retry) > 0 {
+		slow := NewSolver(filepath.Join(outDir, "smt", pf.ID+"-retry"), timeout*3, seed+1)
+		slow.QuickS = timeout
+		sem2 := make(chan struct{}, 4)
+		for _, o := range retry {
+			wg.Add(1)
+			sem2 <- struct{}{}
+			go func(o *Obligation) {
+				defer wg.Done()
+				defer func() { <-sem2 }()
+				r := slow.Solve(o.Script)
+				if r.Answer == "unsat" || r.Answer == "sat" {
+					o.Res = r
+				}
+			}(o)
+		}
+		wg.Wait()
+		for k, v := range slow.SecBy {
+			solver.SecBy[k] += v
+		}
+	}
 	// vacuity covers: per function/case, stop at the first satisfiable return path
 	coverOK := map[string]string{}
 	var cmu sync.Mutex
